@@ -137,8 +137,8 @@ func init() {
 	// kills between individual Atomix writes: one (thorough: 20) enumerated scenario x every write RPC + PRNG placements
 	const quickRPCk, quickRPCrandom, thoroughRPCscenarios, thoroughRPCk, thoroughRPCrandom = 300, 100, 20, 320, 2000
 	fw.Register(&fw.Check{ID: "C07", Level: "fault_enumeration",
-		Technique: "runtime monitoring with fault injection: the process is killed (all its goroutines park for ever at their next decorated call or Atomix RPC) just before the k-th persisted effect - counted in decorated calls (store write, device Set, topology write) and, in a second family of cases, in individual Atomix write RPCs, which places kills between the two Atomix writes of one store method - for every k of enumerated scenarios and for PRNG (scenario, k) and (k1, k2) placements; a new incarnation is started on the same Atomix cluster and devices; end state vs crash-independent sequential model + order monitor + fixed point",
-		Rule: "quick: 3 scenarios x every k in 1..150 decorated effects (k beyond the scenario's last effect is a crash-free run, counted trivial) + 100 PRNG (scenario, k) + 40 PRNG pairs (k1, k2 effects after the restart) + 1 scenario x every k in 1..300 Atomix write RPCs + 100 PRNG (scenario, RPC k); " +
+		Technique: "runtime monitoring with fault injection: the process is killed (all its goroutines park for ever at their next decorated call or Atomix RPC) just before the k-th persisted effect - counted in decorated calls (store write, device Set, topology write) and, in a second family of cases, in individual Atomix write RPCs, which places kills between the two Atomix writes of one store method - for every k of enumerated scenarios, of a directed scenario with overlapping proposals on one target (predecessors resume last) and for PRNG (scenario, k) and (k1, k2) placements; the order in which pending work resumes after the restart is varied by delaying each task's first call; a new incarnation is started on the same Atomix cluster and devices; end state vs crash-independent sequential model + order monitor + fixed point",
+		Rule: "quick: 3 scenarios x every k in 1..150 decorated effects (k beyond the scenario's last effect is a crash-free run, counted trivial) + 100 PRNG (scenario, k) + 40 PRNG pairs (k1, k2 effects after the restart) + 1 scenario x every k in 1..300 Atomix write RPCs + 100 PRNG (scenario, RPC k) + directed overlap scenario x every k in 1..130; " +
 			"non-trivial = at least one kill happened; distinct_nontrivial = distinct (scenario, k1, k2, granularity) placements at which a kill actually happened",
 		Assumptions: append([]string{"a kill parks every goroutine of the system under test at its next decorated call or unary Atomix RPC; an RPC that was already in flight completes (it may or may not have landed in a real crash either)",
 			"device requests and topology writes are atomic with respect to the kill"}, s2Assumptions...),
